@@ -1,5 +1,5 @@
 import SlimProps.C03
-import SlimProofs.IterLemmas
+import SlimProofs.IterMain
 /-
   SlimProps.C04Iter — scans on Complete tries (the positive half of C04; the refusal clause and
   `C04_exhausted_stable` are in SlimProps.C04).
@@ -8,6 +8,15 @@ import SlimProofs.IterLemmas
   start string, `getGEPath` returns normally; its path is the root-to-leaf id path
   (`IterLemmas.RootPath`) of the smallest retained key `≥ start` (`IterLemmas.FirstGE`), the empty
   path if every retained key is below `start`, and `eq` says whether that key is `start` itself.
+
+  Stages (b)+(c): `C04_iter` — `NewIter(start, incl)` returns normally and ANY number `k` of
+  `next()` calls yields `Spec.scanFrom R start incl` (R = `retained keys vals opt.dedup`), i.e. the
+  retained keys `≥ start` (`> start` if exclusive) in ascending order, each once, as
+  `(key bytes, value)` with value = nil when values are not requested or none are stored, else the
+  entry's encoded value (`C04.item`), followed by `(nil, nil)` on every later call
+  (`IterStack.expect`).  Key reassembly (b) is part of it: the yielded key bytes are the entry's key
+  (`IterStack.descend_spec`: buffer invariant `BufAgree`, `appendLabel_spec`,
+  `appendInnerPrefix_spec`, `appendLeafPrefix_spec`; no `reslice beyond len`).
 -/
 
 open IterLemmas Subtree SearchDescent Exact Scan
@@ -26,6 +35,84 @@ theorem C04_getGEPath (keys : List Bytes) (vals : Option (List Bytes)) (opt : Op
     obtain ⟨hin, hlf⟩ := C03.complete_opt hc
     rw [← hopt] at hin hlf
     exact getGEPath_exact keys _ t (build_strictAsc keys vals opt t hb hne) hwf hin hlf start
+
+/-! ### (b)+(c): the iterator against `Spec.scanFrom` -/
+
+namespace C04
+
+/-- the item `next()` yields for a retained entry: key bytes and, if requested, the value
+    (nil when every retained value is empty or none were supplied) -/
+def item (R : List Entry) (wv : Bool) (e : Entry) : Option Bytes × Option Bytes :=
+  (some e.1, if wv then (if eltsTotal (R.map (fun e => e.2.getD [])) = 0 then none else e.2)
+             else none)
+
+/-- `Spec.scanFrom` over the retained list, by kept indexes -/
+theorem scanFrom_eq (keys : List Bytes) (vals : Option (List Bytes)) (keep : List Bool)
+    (start : Bytes) (incl : Bool) :
+    Spec.scanFrom ((C09.keptIdx keep keys.length).map (C09.entryAt keys vals)) start incl =
+      (IterMain.scanIdx keys keep start incl).map (C09.entryAt keys vals) := by
+  unfold Spec.scanFrom IterMain.scanIdx
+  rw [List.filter_map]
+  congr 1
+  unfold C09.keptIdx IterStack.kfrom
+  rw [Nat.sub_zero, List.range_eq_range']
+  rfl
+
+theorem item_entryAt (keys : List Bytes) (vals : Option (List Bytes)) (keep : List Bool)
+    (hv : ∀ vs, vals = some vs → vs.length = keys.length) (wv : Bool) (i : Nat) :
+    item ((C09.keptIdx keep keys.length).map (C09.entryAt keys vals)) wv (C09.entryAt keys vals i)
+      = IterStack.yieldOf keys (recVal keep vals) wv i := by
+  have h := C09.shownVal_entryAt keys vals keep hv (some i)
+  simp only [Option.map_some, shownVal, valOf, Option.some.injEq] at h
+  unfold item IterStack.yieldOf
+  rw [h]
+  rfl
+
+end C04
+
+/-- **C04 (iterator).**  On a Complete trie, `NewIter(start, incl)` followed by `k` calls of
+    `next()` yields the first `k` entries of `Spec.scanFrom R start incl` (as `C04.item`), padded
+    with `(nil, nil)` once the entries are exhausted — for every `start`, both inclusivities,
+    with and without values, every `k`. -/
+theorem C04_iter (keys : List Bytes) (vals : Option (List Bytes)) (opt : Opt) (t : Trie1)
+    (hb : build keys vals opt = .ok t) (hc : opt.complete = true)
+    (start : Bytes) (incl wv : Bool) :
+    ∃ s, newIterFrom t.view start incl = .ok s ∧
+      ∀ k, iterTake t.view wv k s =
+        .ok (IterStack.expect k ((Spec.scanFrom (retained keys vals opt.dedup) start incl).map
+          (C04.item (retained keys vals opt.dedup) wv))) := by
+  by_cases hne : keys = []
+  · subst hne
+    rw [C03.build_nil vals opt t hb, C03.retained_nil]
+    refine ⟨.walk [] [], rfl, ?_⟩
+    intro k
+    show _ = Except.ok (IterStack.expect k [])
+    rw [IterStack.expect_nil]
+    exact IterStack.iterTake_exhausted _ _ k _
+  · obtain ⟨hwf, hopt⟩ := build_wf keys vals opt t hb hne
+    obtain ⟨hasc, hv, _⟩ := build_pre keys vals opt t hb hne
+    obtain ⟨hin, hlf⟩ := C03.complete_opt hc
+    rw [← hopt] at hin hlf
+    have hget := C09.getLeaf_of_build keys vals opt t hb hne
+    rw [C09.retained_eq keys vals opt.dedup hv]
+    generalize keepMask keys.length vals opt.dedup = keep at hwf hget ⊢
+    have hval : ∀ (id ith : Nat) (lp : Option Bytes) (m : Nat),
+        t.nodes[id]? = some (Node.leaf ith lp) → t.leafKeyIdx[ith]? = some m →
+        t.view.leafBytes ith = .ok (recVal keep vals m) := by
+      intro id ith lp m h1 h2
+      have := hget id m ⟨ith, lp, h1, h2⟩
+      unfold getLeaf at this
+      rw [IterStack.view_node_of t id _ h1] at this
+      exact this
+    obtain ⟨s, hs, htake⟩ :=
+      iter_exact keys keep t hasc hwf hin hlf (recVal keep vals) hval start incl wv
+    refine ⟨s, hs, ?_⟩
+    intro k
+    rw [htake k, C04.scanFrom_eq, List.map_map]
+    congr 2
+    apply List.map_congr_left
+    intro i _
+    exact (C04.item_entryAt keys vals keep hv wv i).symm
 
 /-! ### non-vacuity -/
 
@@ -49,3 +136,4 @@ example : ∃ t, build C03.exKeys (some C03.exVals) C03.exOpt = .ok t ∧ C03.ex
   | .error e => rw [hb] at h; cases h
 
 #print axioms C04_getGEPath
+#print axioms C04_iter
